@@ -262,7 +262,31 @@ def rule_d6(ctx):
     ctx.inventory["memo_sites_language"] = n
 
 
+def rule_d7(ctx, prefix="D7"):
+    """Variables are identified by NAME in the emitter's VariableManager: a lookup that finds an existing variable must not silently ignore a different
+    declared type (a second `exists <digit> v` after `exists <stmt> v` would become a quantifier over <stmt>)."""
+    f = ctx.repo.func(LANG, "VariableManager._var", f"C08.{prefix}")
+    c = f"{LANG}:VariableManager._var"
+    hit = [n for n in f.body if isinstance(n, ast.If) and src(n.test) == "matching_variables"]
+    if len(hit) != 1:
+        raise Unrecognised(f"C08.{prefix}", c, "lookup-by-name branch `if matching_variables:` not found")
+    br = hit[0]
+    rets = [r for r in ast.walk(br) if isinstance(r, ast.Return)]
+    if not rets or any(src(r.value) != "matching_variables[0]" for r in rets):
+        raise Unrecognised(f"C08.{prefix}", c, "lookup branch does not return the existing variable")
+    guards = [n for n in br.body if isinstance(n, ast.If) and "n_type" in src(n.test) and ".n_type" in src(n.test) and any(isinstance(x, ast.Raise) for x in ast.walk(n))]
+    ctx.check(bool(guards), f"{prefix}-declared-type-respected", c, "existing variable returned only if the declared type agrees", site(br),
+              "a variable is looked up by its name alone and the declared type of the new occurrence is ignored: in `(exists <stmt> v: ...) and (exists <digit> v: str.to.int(v) >= 1)` the second "
+              "quantifier silently ranges over <stmt> - the parsed constraint is not the one that was written", "type conflict raises")
+    if guards:
+        t = " ".join(src(guards[0].test).split())
+        ok = t in ("n_type is not None and matching_variables[0].n_type != n_type", "n_type is not None and n_type != matching_variables[0].n_type")
+        if not ok:
+            raise Unrecognised(f"C08.{prefix}", c, f"type-conflict test `{t}` not understood")
+
+
 def run(ctx) -> str:
+    ctx.guarded("D7", lambda: rule_d7(ctx))
     ctx.guarded("D6", lambda: rule_d6(ctx))
     ctx.guarded("D1", lambda: rule_d1(ctx))
     ctx.guarded("D2", lambda: rule_d2(ctx))
